@@ -198,6 +198,11 @@ def r2(ctx, prog, ev, rep):
                             rep.bad("C08-R2", key, T.loc(node), "division by a value that may be zero: `%s`" % term)
                             continue
                         res = tr
+                if not (res[0] >= tr[0] and res[1] <= tr[1]) and s["kind"] != "un" and op in ("Add", "Sub"):
+                    from vflib import relational
+                    lo_ok, hi_ok = relational.prove_range(iv, pc, term, tr)
+                    if (res[0] >= tr[0] or lo_ok) and (res[1] <= tr[1] or hi_ok):
+                        res = (max(res[0], tr[0]), min(res[1], tr[1]))
                 if res[0] >= tr[0] and res[1] <= tr[1]:
                     rep.ok("C08-R2", key, T.loc(node), "%s in [%s, %s] fits %s" % (op, _f(res[0]), _f(res[1]), ty))
                 else:
@@ -372,6 +377,11 @@ def prove_index(prog, ev, iv, fn, term, pc, ctx):
             hi_ok = True
     if lo_ok and hi_ok:
         return True, "0 <= index < len from the enclosing guards"
+    # (d) relational fallback: linear constraints from all enclosing comparisons
+    from vflib import relational
+    rlo, rhi = relational.prove_in_bounds(iv, pc, X, Tm("call", ("<len>", A)))
+    if (lo_ok or rlo) and (hi_ok or rhi):
+        return True, "0 <= index < len follows from the enclosing comparisons (linear-inequality proof)"
     # (c) I = len(A) - Y with 1 <= Y <= len(A)
     if X.k == "bin" and X.a[0] == "Sub" and lenA(X.a[1]):
         Y = X.a[2]
